@@ -487,8 +487,20 @@ class _OsProxy:
 
 import vinegar.utils.version as _VER      # noqa: E402
 OSP = _OsProxy()
-_VER.os = OSP
+# whatever name vinegar.utils.version uses to reach os.stat (`import os`, `from os import stat [as x]`)
+for _name, _val in list(vars(_VER).items()):
+    if _val is os:
+        setattr(_VER, _name, OSP)
+    elif _val is os.stat:
+        setattr(_VER, _name, OSP.stat)
 STAT_TOKEN = {"PermissionError": 1010, "OSError": 1011, "BlockingIOError": 1012}
+
+
+class Obs(list):
+    """observation of a case plus, per call-with-fault step, whether the injected fault fired"""
+    def __init__(self, *a):
+        super().__init__(*a)
+        self.fired = []
 
 
 def primitive_steps(hist):
@@ -783,14 +795,16 @@ class C14(Check):
         SB.configure(c.get("link"))
         SB.apply(c["init"])
         src = TF.get_instance(make_config(c, path))
-        out = []
+        out = Obs()
         for stp in c["hist"]:
             if stp[0] == "edit":
                 SB.apply(stp[1], stp[2] if len(stp) > 2 else "replace")
                 continue
             if stp[0] == "fcall":
-                # the fresh source answers without the fault; the long-lived source gets ONE injected fault at
-                # open / first read / stat of this call (not consumed if the call does not get that far)
+                # The fresh source answers without the fault; the long-lived source gets ONE injected fault, identified
+                # by WHAT it hits (the stat of the configured path / the open / the first read), not by a call count.
+                # Whether the call got that far (the fault fired) is an event of the environment that is recorded
+                # with the observation: a fault that did not fire makes the step an ordinary call for the model.
                 b = call_source(TF.get_instance(make_config(c, path)), stp[1])
                 if stp[2][0] == "stat":
                     OSP.fault = stp[2][1]
@@ -799,6 +813,7 @@ class C14(Check):
                 try:
                     a = call_source(src, stp[1])
                 finally:
+                    out.fired.append(OSP.fault is None and TAP.fault is None)
                     TAP.fault = None
                     OSP.fault = None
                 out.append([a, b])
@@ -860,9 +875,12 @@ class C14(Check):
             return [ver, enc_fstate(stt)]
         init = fs_sx(c["init"])
         cur = c["init"]
+        fired = list(getattr(obs, "fired", []))
         for stp in primitive_steps(c["hist"]):
-            if stp[0] == "fcall" and stp[2][0] == "read" and cur[0] == "missing":
-                stp = stp[1]        # open() fails first: the read fault cannot happen, an ordinary call
+            if stp[0] == "fcall":
+                did_fire = fired.pop(0) if fired else True
+                if not did_fire or (stp[2][0] == "read" and cur[0] == "missing"):
+                    stp = stp[1]    # the call never reached the faulted operation: an ordinary call
             if stp[0] == "edit":
                 cur = stp[1]
                 v, fx = fs_sx(stp[1])
@@ -1042,21 +1060,6 @@ class C14(Check):
             if stp[0] == "edit":
                 for s2 in smaller(stp[1]):
                     yield dict(c, hist=h[:i] + [("edit", s2) + tuple(stp[2:])] + h[i + 1:])
-            if stp[0] == "fcall":
-                # the fresh source answers without the fault; the long-lived source gets ONE injected fault at
-                # open / first read / stat of this call (not consumed if the call does not get that far)
-                b = call_source(TF.get_instance(make_config(c, path)), stp[1])
-                if stp[2][0] == "stat":
-                    OSP.fault = stp[2][1]
-                else:
-                    TAP.arm_fault(stp[2][0], stp[2][1])
-                try:
-                    a = call_source(src, stp[1])
-                finally:
-                    TAP.fault = None
-                    OSP.fault = None
-                out.append([a, b])
-                continue
             if stp[0] == "cedit":
                 for s2 in smaller(stp[2]):
                     yield dict(c, hist=h[:i] + [("cedit", stp[1], s2) + tuple(stp[3:])] + h[i + 1:])
